@@ -356,6 +356,9 @@ fn diff_one(c: &mut Ctx, fam: &str, idx: u64, bytes: &[u8], kind: &str) {
                     return;
                 }
             }
+            for it in ni.iter().filter(|i| i.rtype == 41) {
+                opts_one(c, fam, idx, &it.rdata, kind);
+            }
             c.eval(&("both", kind, ni.len().min(8), ni.iter().fold(0u64, |m, i| m | 1 << (i.rtype % 64))));
         }
         (Err(_), Err(_)) => {
@@ -871,7 +874,9 @@ pub fn run(c: &mut Ctx) {
         let mut rng = c.case_rng(fam, idx);
         let gmsg = gm::valid_message(&mut rng, if miri { 3 } else { 8 }, true);
         let (bytes, kind) = match idx % 6 {
-            0 | 1 => (gmsg.octets.clone(), "valid"),
+            0 => (gmsg.octets.clone(), "valid"),
+            1 if idx % 12 == 1 => (gm::typed_hostile_message(&mut rng), "typed-hostile"),
+            1 => (gmsg.octets.clone(), "valid"),
             5 => (gm::random_message(&mut rng), "random"),
             _ => gm::mutate(&mut rng, &gmsg),
         };
